@@ -154,6 +154,12 @@ pub fn check_side(n: &Net, side: u8, wt: bool) -> Result<SideWire, WireErr> {
     if out.control_streams.len() > 1 {
         return Err(("two_control_streams".into(), format!("control streams {:?}", out.control_streams)));
     }
+    // a server's GOAWAY names a client-initiated bidirectional stream (RFC 9114 7.2.6); a client's a push id
+    if side == crate::net::SERVER {
+        if let Some(g) = out.goaways.iter().find(|g| **g % 4 != 0) {
+            return Err(("goaway_id_not_request_stream".into(), format!("the server's GOAWAY identifiers {:?}: {g} is not a client-initiated bidirectional stream id", out.goaways)));
+        }
+    }
     // GOAWAY ids never increase
     if out.goaways.windows(2).any(|w| w[1] > w[0]) {
         return Err(("goaway_increased".into(), format!("GOAWAY identifiers {:?}", out.goaways)));
